@@ -54,9 +54,6 @@ Components(g) == { ReachFrom(g, {a}) : a \in Atoms(g) }
    bonds - not of fleeting ones - and, for the stereo reaction class, every atom named by
    a descriptor of a stereo change; ChangeIds is defined further down *)
 RoleBonds(g, r) == { b \in Bonds(g) : g.bd[b].role = r }
-BondCode(b) == LET lo == CHOOSE x \in b : \A y \in b : x <= y
-                   hi == CHOOSE x \in b : \A y \in b : y <= x
-               IN 100 * lo + hi
 
 (* ---- coherence of the abstract state (what every view must agree on) ---- *)
 Coherent(g) ==
